@@ -15,6 +15,7 @@ deriving Repr
 
 inductive Verdict where
   | ok
+  | lostEntry (i : Nat)             -- argument i is complete neither at its place nor under any new payload: data lost
   | strayInfo | strayPayload        -- something new without its counterpart
   | lostOrHalf (i : Nat)            -- argument i is neither untouched nor completely trashed
   | reportedButTouched (i : Nat)    -- failure reported for i, yet it was moved
@@ -42,6 +43,15 @@ def untouched (before after : FS) (dirs : List CPath) (e : CPath) : Bool :=
 def check (before after : FS) (dirs : List CPath) (items : List Item) : Verdict :=
   let np := newPayloads before after dirs
   let ni := newInfos before after dirs
+  -- first of all: nothing may be lost
+  match (List.range items.length).find? fun i =>
+      match items[i]? with
+      | some it => (match it.entry with
+          | some e => ¬ untouched before after dirs e && ¬ np.any fun (t, n) => subtreeEq before e after (payloadPath t n)
+          | none => false)
+      | none => false with
+  | some i => .lostEntry i
+  | none =>
   if ¬ ni.all (np.contains ·) then .strayInfo
   else if ¬ np.all (ni.contains ·) then .strayPayload
   else
